@@ -49,4 +49,13 @@ RepackOK(e) ==
           e.out[k] = (IF \E j \in 1..Len(e.min) : e.min[j].i = k - 1
                       THEN e.min[CHOOSE j \in 1..Len(e.min) : e.min[j].i = k - 1].c0 ELSE 0)
 EncOK(e) == Done(e)
+
+\* ---- standard / conjugate-invariant swap (ckks.DomainSwitcher), slot values in sixteenths -----------------------
+\* RealToComplex: the real vector, with zero imaginary parts, at the same scale; ComplexToReal: the real parts, at
+\* twice the scale (lgscale is the ratio of the scales in thousandths); both at the smaller of the two levels
+Min2(a, b) == IF a < b THEN a ELSE b
+R2COK(e) == /\ Done(e) /\ e.outre = e.re /\ \A i \in 1..Len(e.outim) : e.outim[i] = 0
+            /\ e.lvlout = Min2(e.lvlin, e.lvlrecv) /\ e.lgscale = 1000
+C2ROK(e) == /\ Done(e) /\ e.outre = e.re /\ \A i \in 1..Len(e.outim) : e.outim[i] = 0
+            /\ e.lvlout = Min2(e.lvlin, e.lvlrecv) /\ e.lgscale = 2000
 =============================================================================
